@@ -54,6 +54,7 @@ impl Scenario for StopScenario {
 			drop_handles: self.drop_handles,
 			slow_steps: self.slow_steps,
 			buffer: if self.name.contains("buffer1") { 1 } else { 16 },
+			max_req: if self.name.contains("oversized") { 256 } else { 0 },
 			..Default::default()
 		})
 	}
@@ -216,6 +217,9 @@ pub fn scenarios(thorough: bool) -> Vec<StopScenario> {
 	// control frames from the peer while the server waits for pending calls: they are not a disconnect
 	add("ws-peer-pongs-during-stop", vec![ws(vec![PeerAct::SlowCall, PeerAct::Pong])], vec![], false, false, 1, mask_harness_only);
 	add("ws-peer-pings-during-stop", vec![ws(vec![PeerAct::SlowCall, PeerAct::Ping, PeerAct::Call])], vec![], false, false, 1, mask_harness_only);
+	// the peer sends a frame above max_request_body_size while the server waits for the pending call: that is not a disconnect
+	add("ws-peer-sends-oversized-frame-during-stop", vec![ws(vec![PeerAct::SlowCall, PeerAct::Oversized(257)])], vec![], false, false, 1, mask_harness_only);
+	add("ws-peer-sends-oversized-frame-and-call-during-stop", vec![ws(vec![PeerAct::SlowCall, PeerAct::Oversized(5000), PeerAct::Call])], vec![], false, false, 1, mask_harness_only);
 	// a subscribe call in flight at stop while the connection's outgoing buffer (capacity 1) is full and the writer is held back
 	for (how, script) in [("accept", vec![Accept]), ("reject", vec![Reject])] {
 		add(&format!("ws-subscribe-{how}-in-flight-buffer1-writer-point"), vec![ws(vec![PeerAct::Call, PeerAct::Call, PeerAct::Subscribe(0)])], vec![script.clone()], false, false, 1, mask_send_task);
@@ -262,7 +266,7 @@ pub fn scenarios(thorough: bool) -> Vec<StopScenario> {
 pub fn check(rep: &Reporter) {
 	let thorough = rep.tier.thorough();
 	rep.set_rule(
-		"0–3 connections (WebSocket and keep-alive HTTP/1.1, raw peers over in-memory duplexes) with calls to a handler that parks at scheduling points, optional open subscription; stop() (or dropping every ServerHandle) is its own scheduling point and therefore lands at every position: before the call bytes are sent, sent but unread, handler started, handler finished but reply unwritten, reply written; second stop(), peer close/drop and unsolicited Pong/Ping frames racing the stop; per scenario also the library's cfg points in the WebSocket tasks. Monitor: every call (incl. subscribe calls whose handler ran accept()/reject()) whose handler started and whose peer stayed is answered, the handler ran to completion, no transport write and no handler start after stopped() resolved, stopped() resolves and every serve future ends.",
+		"0–3 connections (WebSocket and keep-alive HTTP/1.1, raw peers over in-memory duplexes) with calls to a handler that parks at scheduling points, optional open subscription; stop() (or dropping every ServerHandle) is its own scheduling point and therefore lands at every position: before the call bytes are sent, sent but unread, handler started, handler finished but reply unwritten, reply written; second stop(), peer close/drop, unsolicited Pong/Ping frames and a frame above max_request_body_size racing the stop; per scenario also the library's cfg points in the WebSocket tasks. Monitor: every call (incl. subscribe calls whose handler ran accept()/reject()) whose handler started and whose peer stayed is answered, the handler ran to completion, no transport write and no handler start after stopped() resolved, stopped() resolves and every serve future ends.",
 	);
 	rep.assume("'handed to the transport' is observed as a write on the server half of the duplex (logged by a pass-through wrapper)");
 	rep.assume("SRV-TCP legs (Server::start over loopback sockets): quiescence = the runtime polled nothing but the driver for 4 consecutive rounds; the order 'answer read by the peer' vs 'stopped() resolved' is not judged there; every schedule is re-executed and a divergence is counted as inconclusive");
